@@ -48,6 +48,13 @@ func main() {
 			fmt.Fprintln(os.Stderr, err)
 			os.Exit(2)
 		}
+	case "errors":
+		p, err := load.Load("/repo", false)
+		if err != nil {
+			fmt.Fprintln(os.Stderr, err)
+			os.Exit(2)
+		}
+		rules.DumpErrors(os.Stdout, p)
 	default:
 		os.Exit(rules.Main(os.Args[1:]))
 	}
